@@ -386,7 +386,7 @@ def r6_4(ctx):
             yield from arith_leaves(e[2])
         elif k in ("deref", "ref"):
             yield from arith_leaves(e[1])
-        elif k == "call" and any(e[1].endswith(sfx) for sfx in ARITH_CALLS):
+        elif k == "call" and (any(e[1].endswith(sfx) for sfx in ARITH_CALLS) or f.has_body(e[1])):
             for a in e[2]:
                 yield from arith_leaves(a)
         elif k in ("const", "float"):
@@ -396,16 +396,20 @@ def r6_4(ctx):
     leaves = set()
     for loc, e in ds:
         leaves |= set(arith_leaves(e))
-    ksq = [x for x in leaves if root_local(x) != sq]
-    psq = [x for x in leaves if root_local(x) == sq]
-    def coord(x):
-        return x[2] if x[0] == "field" else None
-    if sorted(map(coord, ksq)) != ["0", "1"] or sorted(map(coord, psq)) != ["0", "1"]:
-        raise ShapeNotRecognised("king-class decision is not a function of (king.0, king.1, square.0, square.1): %s" % [show_expr(x, b) for x in leaves])
-    k0 = next(x for x in ksq if coord(x) == "0")
-    k1 = next(x for x in ksq if coord(x) == "1")
-    p0 = next(x for x in psq if coord(x) == "0")
-    p1 = next(x for x in psq if coord(x) == "1")
+    # point-valued roots: the enemy king's square and the probed square
+    from wa import interp
+    interp.set_facts(f)
+    roots = set()
+    for x in leaves:
+        if x[0] == "field" and x[2] in ("0", "1"):
+            roots.add(x[1])
+        else:
+            roots.add(x)
+    P = [r for r in roots if root_local(r) == sq and strip_refs(r)[0] == "arg"]
+    K = [r for r in roots if r not in P]
+    if len(P) != 1 or len(K) != 1:
+        raise ShapeNotRecognised("king-class decision is not a function of (enemy king square, probed square): %s" % [show_expr(x, b) for x in roots])
+    P, K = P[0], K[0]
     start = min((loc[0] for loc, _ in ds), key=lambda bb: len([x for x in b.normal if b.node_dominates(x, bb)]))
     bad = []
     n = 0
@@ -415,16 +419,12 @@ def r6_4(ctx):
                 for pc in range(2, 10):
                     if (kr, kc) == (pr, pc):
                         continue
-                    env = {k0: kr, k1: kc, p0: pr, p1: pc}
+                    env = {K: (kr, kc), P: (pr, pc)}
                     try:
                         rb, path = walk(b, ex, env, start_bb=start)
+                        val = interp.path_return_value(b, ex, path, env)
                     except Unknown as e:
                         raise ShapeNotRecognised("cannot evaluate king-class decision: %r" % (e,))
-                    val = None
-                    for pb in path:
-                        for i, st in enumerate(b.stmts(pb)):
-                            if st["k"] == "assign" and st["place"]["local"] == 0 and not st["place"]["proj"]:
-                                val = eval_expr(ex.rvalue(st["rv"], (pb, i)), env)
                     want = max(abs(kr - pr), abs(kc - pc)) <= 1
                     n += 1
                     if bool(val) != want:
